@@ -225,6 +225,13 @@ def frame_run(tier='quick'):
     return res
 
 
+def entries_run(tier='quick'):
+    from . import analyses as A
+    t0 = time.time()
+    r = A.entries_check()
+    return _pack('gvc.entries', [r], t0, samples=[dict(obligation='every public parser entry calls init() first', entries_checked=r['checked'])])
+
+
 def pptotal_run(tier='quick'):
     from . import analyses as A
     t0 = time.time()
